@@ -15,7 +15,7 @@ Qed.
 (* ---- inside a block nothing is connected ------------------------------------ *)
 Lemma exec_stmt_conns g b s : conns (fst (fst (exec_stmt g b s))) = conns g.
 Proof.
-  destruct s as [name c effs| | |body]; cbn; try reflexivity.
+  destruct s as [name c effs| | |body|]; cbn; try reflexivity.
   destruct c; cbn; try reflexivity; destruct (existsb _ effs); reflexivity.
 Qed.
 
@@ -84,10 +84,11 @@ Lemma exec_stmt_sw g h b s :
   let '(h1, c1, f1) := exec_stmt h b s in
   sw_eq g1 h1 /\ b1 = c1 /\ e1 = f1.
 Proof.
-  intros (Ha & Hr & Hf). destruct s as [name c effs| | |body]; cbn.
+  intros (Ha & Hr & Hf). destruct s as [name c effs| | |body|]; cbn.
   - destruct c; cbn; try (repeat split; cbn; congruence);
       destruct (existsb _ effs); cbn; repeat split; cbn; congruence.
   - repeat split; cbn; congruence.
+  - repeat split; auto.
   - repeat split; auto.
   - repeat split; auto.
 Qed.
@@ -131,7 +132,7 @@ Qed.
 (* ---- built only when the block completed without error ----------------------- *)
 Lemma exec_stmt_built g b s : built (snd (fst (exec_stmt g b s))) = built b.
 Proof.
-  destruct s as [name c effs| | |body]; cbn; try reflexivity.
+  destruct s as [name c effs| | |body|]; cbn; try reflexivity.
   destruct c; cbn; try reflexivity; destruct (existsb _ effs); reflexivity.
 Qed.
 Lemma exec_body_built g b body : built (snd (fst (exec_body g b body))) = built b.
